@@ -121,8 +121,9 @@ Print Assumptions file_size_follows_links.
 (* [ents] is whatever readdir returns: any names, any order, "." and ".." anywhere, any number of times.
    The callback is called with (path, name, data) for exactly the names other than "." and "..", in readdir's
    order, each as often as readdir returned it (so exactly once for a kernel that lists every name once); names that
-   merely start with dots ("..data", "...", ".hidden") are visited; opendir, one readdir per entry plus the final
-   NULL, closedir; the stream is closed again *)
+   merely start with dots ("..data", "...", ".hidden") are visited; the calls are opendir, then for each entry its
+   readdir followed at once by its callback (the stream is open during every callback), the final readdir that
+   returns NULL, closedir; the stream is closed again *)
 Theorem dir_for_each_visits_each_once : forall path data ents st0, Forall nul_free ents ->
   let st := dir_for_each path data (Some ents) st0 in
   d_log st = d_log st0 ++ map (fun e => (path, e, data))
@@ -130,7 +131,10 @@ Theorem dir_for_each_visits_each_once : forall path data ents st0, Forall nul_fr
   (d_log st0 = [] ->
    forall e, count_occ lz_eq_dec (log_names (d_log st)) e =
              if list_eqb e [DOT] || list_eqb e [DOT; DOT] then O else count_occ lz_eq_dec ents e) /\
-  d_calls st = d_calls st0 ++ [DOpendir path true] ++ map (fun e => DReaddir (Some e)) ents ++
+  d_calls st = d_calls st0 ++ [DOpendir path true] ++
+               flat_map (fun e => DReaddir (Some e) ::
+                                  (if negb (list_eqb e [DOT] || list_eqb e [DOT; DOT]) then [DCallback path e data] else []))
+                        ents ++
                [DReaddir None; DClosedir] /\
   d_open st = d_open st0.
 Proof.
